@@ -147,3 +147,47 @@ def uses_loop(x, k):
     for _ in range(2):
         r = r + k * x
     return r
+
+
+import math  # noqa: E402
+
+
+def exp_law(x, k):
+    return k * math.exp(-x)
+
+
+def log_law(x, k):
+    return k * math.log(x)
+
+
+def sqrt_law(x, k):
+    return k * math.sqrt(x)
+
+
+def pow_law(x, k):
+    return k * math.pow(x, 2)
+
+
+def abs_law(x, k):
+    return k * abs(x - 1)
+
+
+def minmax_law(x, y, k):
+    return k * min(x, y) + max(x, 0.5)
+
+
+def calls_helper(x, k):
+    return twice(x) * k
+
+
+def local_assign_law(x, k):
+    a = k * x
+    return a + x
+
+
+def chain_cmp_expr(x, a, b):
+    return x if a < x < b else a
+
+
+def chain_mixed_expr(x, a, b):
+    return x - a if a <= x < b else 0.0
